@@ -169,8 +169,9 @@ func GateSpecs(c *Ctx, prop string) []GateSpec {
 		s = rets("(*xof/blake2xb.xof).XORKeyStream", "(*xof/blake2xs.xof).XORKeyStream", "(*xof/keccak.xof).XORKeyStream",
 			"(*util/random.randstream).XORKeyStream", "util/random.Int", "util/random.Bits")
 	case "C02":
-		s = rets("util/random.Int", "(*group/mod.Int).UnmarshalBinary")
-		s = append(s, GateSpec{Func: "(*group/mod.Int).UnmarshalBinary", Cfg: "ct"})
+		s = rets("util/random.Int", "util/random.Bits", "(*group/mod.Int).UnmarshalBinary", "(*compatible.Int).SetBytesWithCheck",
+			"(*group/edwards25519.scalar).IsCanonical", "(*group/edwards25519.scalar).UnmarshalBinary")
+		s = append(s, GateSpec{Func: "(*group/mod.Int).UnmarshalBinary", Cfg: "ct"}, GateSpec{Func: "(*compatible.Int).SetBytesWithCheck", Cfg: "ct"})
 	}
 	return s
 }
